@@ -144,9 +144,9 @@ pub fn run_case(prop: &str, tapes: &mut Tapes) -> Result<CaseResult, HarnessErro
     if prop == "C20" {
         return crate::introspect::case_c20(tapes);
     }
-    // C04: a quarter of the cases use the fold-count workload (mandatory-edge classification of
-    // folds depends on count filters: fold_requires_at_least_one_element).
-    let bias = prop == "C22" || (prop == "C04" && tapes.query.draw(4) == 0);
+    // C04, C23: a quarter of the cases use the fold-count workload (C04: mandatory-edge
+    // classification of folds depends on count filters; C23: relations over count filters).
+    let bias = prop == "C22" || ((prop == "C04" || prop == "C23") && tapes.query.draw(4) == 0);
     // Tag interactions (tags into sibling folds, repeated uses, imported tags, dynamic hints):
     // half of the cases of these properties are biased toward many tags and tag operands.
     let bias_tags = crate::runner::wants_tag_bias(prop) && tapes.query.draw(2) == 1;
